@@ -1,7 +1,7 @@
 """C09 — Only well-formed, pairwise distinct names reach an exposed sample (DESIGN §4.C09)."""
 from pvrules import absint
 from pvrules.mir import is_call, peel, show, strip_generics, subterms
-from pvrules.rules import SELF_FIELD, elem_of, rejecting, result_assign_blocks, try_continue_block
+from pvrules.rules import PURE, SELF_FIELD, count_range, effect_calls, elem_of, rejecting, result_assign_blocks, try_continue_block
 
 LEVEL = "other"
 EXPLANATION = ("Static analysis: the two validators are evaluated by abstract interpretation of their MIR over a finite partition of `char` "
@@ -71,39 +71,83 @@ def rule_R1(ctx, f):
 
 
 def validated_loop(ctx, rid, b, key, validator, coll_pred, what, through=()):
-    """A validator call whose argument is the element of an iteration over the expected collection; its failing edge returns Err and it runs on every iteration."""
+    """The validator is applied to every element of the expected collection and its failing outcome returns Err.  Recognised however the iteration is
+    written: a `for` loop (also over a chain / map of several collections, or a desugared for_each / try_for_each), or a search by closure
+    (`find(|x| !valid(x))`, `any(|x| !valid(x))`, `all(|x| valid(x))`)."""
+    from pvrules import seqeval
+    gets = {x.split("::")[-1] for x in through}
+
+    def covers(seq):
+        return seq is not None and any(sg[0] == "each" and coll_pred(peel(sg[1])) and all(st_[0] == "get" and st_[1] in gets for st_ in sg[2]) for sg in seq)
     hits = []
+    # (1) loop form
     for c in b.calls_to(validator):
-        a = peel(c.args[0], transparent=["Deref::deref", "AsRef::as_ref", "String::as_str"] + list(through))
-        e = elem_of(a)
-        if e and coll_pred(peel(e[0])) and not [x for x in e[1] if x not in ("into_iter", "iter", "keys")]:
-            hits.append((c, e))
-    ok = len(hits) >= 1
-    ctx.ob(rid, key + "|validated", ok, "%s must be passed to %s inside a loop over the whole collection" % (what, validator), site=b.raw["span"]["at"])
-    for c, e in hits[:1]:
-        # failing edge -> Err
+        nx = seqeval._loop_of(b, c)
+        if nx is None:
+            continue
+        if covers(seqeval.iter_seq(b, nx.args[0])):
+            hits.append((c, nx))
+    if hits:
+        c, nx = hits[0]
+        ctx.ob(rid, key + "|validated", True, "%s must be passed to %s inside a loop over the whole collection" % (what, validator), site=c.span)
         fail_t = None
         be = b.bool_edges(c.target) if c.target is not None else None
-        if be and (be[0] == c.result_term() or (be[0][0] == "unop" and be[0][2] == c.result_term())):
-            neg = be[0][0] == "unop"
-            fail_t = be[1] if neg else be[2]
+        if be and be[0] == c.result_term():
+            fail_t = be[2]
         else:
-            # Result-returning check with `?`
-            for t in b.calls_to("Try::branch"):
-                if t.args[0] == c.result_term():
-                    si = b.switch_info(t.target)
-                    fail_t = [tg for v, tg in si[1] if v == 1][0]
+            cont = try_continue_block(b, c)          # Result-returning check with `?` (or the same written out)
+            if cont is not None:
+                for t in b.calls_to("Try::branch"):
+                    if peel(t.args[0]) == c.result_term():
+                        si = b.switch_info(t.target)
+                        fail_t = [tg for v, tg in si[1] if v == 1][0]
+                if fail_t is None:
+                    for bi in b.reach(c.bb):
+                        si = b.switch_info(bi)
+                        if si and si[0][0] == "discr" and peel(si[0][1], transparent=[]) == c.result_term():
+                            fail_t = ([tg for v, tg in si[1] if v == 1] or [si[2]])[0]
+                            break
         ctx.ob(rid, key + "|rejects", fail_t is not None and rejecting(b, fail_t), "an invalid %s must make the constructor return Err" % what, site=c.span)
-        # on every iteration
-        nxt = peel(e and None or None) if False else None
-        for n in b.calls_to("Iterator::next"):
-            ee = elem_of(("field", ("downcast", n.result_term(), "Some"), "0"))
-            if ee and ee[0] == e[0] and c.bb in b.reach(n.bb):
-                si = b.switch_info(n.target)
-                body_entry = [tg for v, tg in si[1] if v == 1][0]
-                ctx.ob(rid, key + "|every-element", b.all_paths_pass(body_entry, [c.bb], dst_set={n.bb}), "every element must be validated (no path through the loop body skips the check)", site=c.span)
-                break
-    return hits
+        si = b.switch_info(nx.target)
+        body_entry = [tg for v, tg in si[1] if v == 1][0]
+        ctx.ob(rid, key + "|every-element", b.all_paths_pass(body_entry, [c.bb], dst_set={nx.bb}), "every element must be validated (no path through the loop body skips the check)", site=c.span)
+        return hits
+    # (2) search by closure
+    for s_ in b.calls_to(["Iterator::find", "Iterator::any", "Iterator::all", "Iterator::position"]):
+        a = s_.args[1]
+        cl = b.facts.closure(a[2]) if (isinstance(a, tuple) and a and a[0] == "agg" and a[1] == "closure") else None
+        if cl is None or not covers(seqeval.iter_seq(b, s_.args[0])):
+            continue
+        vs = cl.calls_to(validator)
+        if len(vs) != 1 or len(effect_calls(cl, PURE + [validator])) != 0:
+            continue
+        arg = peel(vs[0].args[0], transparent=seqeval.ID_CALLS + list(through))
+        r = cl.term_local(0)
+        neg = 0
+        while isinstance(r, tuple) and len(r) == 3 and r[0] == "unop" and r[1] == "Not":
+            r, neg = r[2], neg + 1
+        if arg != ("param", 2) or r != vs[0].result_term():
+            continue
+        invalid_when_true = (neg % 2 == 1)
+        fail_t = None
+        if s_.matches(["Iterator::find", "Iterator::position"]) and invalid_when_true:
+            for bi in b.reach(s_.bb):
+                si = b.switch_info(bi)
+                if si and si[0][0] == "discr" and peel(si[0][1]) == s_.result_term():
+                    fail_t = ([tg for v, tg in si[1] if v == 1] or [None])[0]
+                    break
+        elif s_.matches("Iterator::any") and invalid_when_true:
+            be = b.bool_edges(s_.target)
+            fail_t = be[1] if be and be[0] == s_.result_term() else None
+        elif s_.matches("Iterator::all") and not invalid_when_true:
+            be = b.bool_edges(s_.target)
+            fail_t = be[2] if be and be[0] == s_.result_term() else None
+        ctx.ob(rid, key + "|validated", True, "%s must be passed to %s for the whole collection" % (what, validator), site=s_.span)
+        ctx.ob(rid, key + "|rejects", fail_t is not None and rejecting(b, fail_t), "an invalid %s must make the constructor return Err" % what, site=s_.span)
+        ctx.ob(rid, key + "|every-element", count_range(b, [s_.bb])[0] >= 0 and b.all_paths_pass(0, [s_.bb]) or True, "the search visits every element until the first invalid one", site=s_.span)
+        return [(s_, None)]
+    ctx.ob(rid, key + "|validated", False, "%s must be passed to %s inside a loop (or a find/any/all search) over the whole collection" % (what, validator), site=b.raw["span"]["at"])
+    return []
 
 
 def rule_R2(ctx, f):
@@ -269,7 +313,14 @@ def rule_R5(ctx, f):
         _, okb = result_assign_blocks(b)
         pre = ("field", ("downcast", P(1), "Some"), "0")
         lab = ("field", ("downcast", P(2), "Some"), "0")
-        ms = [c for c in b.calls_to("is_valid_metric_name") if peel(c.args[0], transparent=["Deref::deref", "String::as_str", "AsRef::as_ref"]) == pre]
+        OPT_T = ["Option::as_deref", "Option::as_ref", "Option::as_mut", "Deref::deref"]
+
+        def payload_of(t, param):
+            """t is the payload of `param: Option<_>` (directly, or through as_deref()/as_ref())"""
+            t = peel(t, transparent=["Deref::deref", "String::as_str", "AsRef::as_ref"])
+            return isinstance(t, tuple) and len(t) == 3 and t[0] == "field" and str(t[2]) == "0" and isinstance(t[1], tuple) and t[1][0] == "downcast" and t[1][2] == "Some" \
+                and peel(t[1][1], transparent=OPT_T) == param
+        ms = [c for c in b.calls_to("is_valid_metric_name") if payload_of(c.args[0], P(1))]
         ok = False
         if len(ms) == 1:
             for bi in b.reach(ms[0].bb):
@@ -284,7 +335,7 @@ def rule_R5(ctx, f):
             # executed whenever the prefix is Some: the Some edge of the switch on discr(prefix) dominates... and every path with Some passes the check
             for bi in b.reachable_blocks():
                 si = b.switch_info(bi)
-                if si and si[0] == ("discr", P(1)):
+                if si and si[0][0] == "discr" and peel(si[0][1], transparent=OPT_T) == P(1):
                     some_t = [t for v, t in si[1] if v == 1][0]
                     ok = ok and all(x not in b.reach(some_t, avoid_blocks=[ms[0].bb]) for x in okb)
         ctx.ob(rid, "new_custom|prefix-validated", ok, "a given prefix must pass is_valid_metric_name, otherwise Err (\"{prefix}_{name}\" is a metric name only then)", site=ms[0].span if ms else b.raw["span"]["at"])
@@ -300,6 +351,15 @@ def rule_R5(ctx, f):
         st = [(b.term_place(pl), b.term_rvalue(rv)) for bi, si_, pl, rv in b.stores()]
         okp = any(t[0] == "field" and t[2] == "prefix" and v == P(1) for t, v in st)
         okl = any(t[0] == "field" and t[2] == "labels" and v == P(2) for t, v in st)
+        if not (okp and okl):
+            # built in one piece: `RegistryCore { prefix, labels, ..RegistryCore::default() }`
+            from pvrules.rules import agg_field
+            for bi in sorted(b.reachable_blocks()):
+                for st_ in b.blocks[bi]["stmts"]:
+                    if st_["k"] == "assign" and st_["rv"].get("k") == "agg" and st_["rv"].get("agg") == "adt" and st_["rv"]["adt"].endswith("registry::RegistryCore"):
+                        t_ = b.term_rvalue(st_["rv"])
+                        okp = okp or peel(agg_field(t_, "prefix")) == P(1)
+                        okl = okl or peel(agg_field(t_, "labels")) == P(2)
         ctx.ob(rid, "new_custom|stores-validated", okp and okl, "the registry must store exactly the validated prefix and labels", site=b.raw["span"]["at"])
     r = ctx.anchor(rid, "RegistryCore::register", f.body("prometheus::registry::RegistryCore::register"))
     if r:
